@@ -104,6 +104,7 @@ package statefulset
 //@ ghost global gReplaceDue set[int] -- ordinals whose Failed/Succeeded pod was deleted in order to be replaced
 //@ ghost global gDeleted set[int]    -- pods (references) for which a delete was issued
 //@ ghost global gUpdDeletes int      -- deletes justified only by the pod's revision
+//@ ghost global gCtlFails int        -- pod control / status updater calls that returned an error
 //@ ghost global gAlloc0 int          -- allocation mark at the start of the reconcile: objects at or above it were made by this reconcile
 
 //@ spec func desiredG(o int) bool = desired(gR, gS, o)
@@ -127,8 +128,9 @@ package statefulset
 //@   profile defaulted requires [C05] updatelast: gMonotonic && !condemnedP(pod) && !replaceable(pod) ==> (forall k int :: {gSnap[k]} 0 <= k && k < len(gSnap) ==> !condemnedP(gSnap[k]))
 //@   profile defaulted requires [C05] updatehealthy: gMonotonic && !condemnedP(pod) && !replaceable(pod) ==> (forall o int32 :: desiredG(o) ==> snapHealthyAt(o) || o == ordOf(pod))
 //@   profile defaulted requires [C07] forupdate: !condemnedP(pod) && !replaceable(pod) ==> gStrategy != "OnDelete" && ordOf(pod) >= gPartition && revOf(pod) != gUpdRev && gUpdDeletes == 0 && (forall o int32 :: o > ordOf(pod) && desiredG(o) ==> snapUpdatedAt(o))
-//@   modifies ghost gNact, gActOrd, gDeleted, gReplaceDue, gUpdDeletes, gWrites, gPodTouch
+//@   modifies ghost gNact, gActOrd, gDeleted, gReplaceDue, gUpdDeletes, gWrites, gPodTouch, gCtlFails
 //@   noalloc
+//@   ensures failed(old(gCtlFails), gCtlFails, result)
 //@   ensures gNact == old(gNact) + 1 && gActOrd == ite(old(gNact) == 0, ordOf(pod), old(gActOrd))
 //@   ensures gWrites == old(gWrites) + 1 && gPodTouch == old(gPodTouch) + 1
 //@   ensures gDeleted == store(old(gDeleted), pod, true)
@@ -144,8 +146,9 @@ package statefulset
 //@   profile defaulted requires [C04] once: !gCreated[ordOf(pod)]
 //@   profile defaulted requires [C05] onestep: gMonotonic ==> gNact == 0 || gActOrd == ordOf(pod)
 //@   profile defaulted requires [C05] predecessors: gMonotonic ==> (forall o int32 :: 0 <= o && o < ordOf(pod) && desiredG(o) ==> snapHealthyAt(o))
-//@   modifies ghost gNact, gActOrd, gCreated, gWrites, gPodTouch
+//@   modifies ghost gNact, gActOrd, gCreated, gWrites, gPodTouch, gCtlFails
 //@   noalloc
+//@   ensures failed(old(gCtlFails), gCtlFails, result)
 //@   ensures gNact == old(gNact) + 1 && gActOrd == ite(old(gNact) == 0, ordOf(pod), old(gActOrd))
 //@   ensures gWrites > old(gWrites) && gPodTouch > old(gPodTouch)
 //@   ensures gCreated == store(old(gCreated), ordOf(pod), true)
@@ -155,7 +158,8 @@ package statefulset
 //@   requires pod != nil && set != nil
 //@   profile defaulted requires [C10] copyonly: pod >= gAlloc0
 //@   profile defaulted requires [C11] notdeleting: !gDeleting
-//@   modifies pod.Name, pod.Namespace, pod.Labels, pod.Spec, map(pod.Labels), gWrites, gPodTouch
+//@   modifies pod.Name, pod.Namespace, pod.Labels, pod.Spec, map(pod.Labels), gWrites, gPodTouch, gCtlFails
+//@   ensures failed(old(gCtlFails), gCtlFails, result)
 //@   ensures gWrites >= old(gWrites) && gPodTouch >= old(gPodTouch)
 
 //@ sortspec ascendingOrdinal: ordOf(a) <= ordOf(b)
@@ -165,6 +169,7 @@ package statefulset
 //@   results restored, err
 //@   requires set != nil && revision != nil
 //@   ensures err == nil ==> restored != nil && fresh(restored)
+//@   ensures err != nil ==> errLocal(err)
 //@   ensures err == nil ==> restored.Name == set.Name && restored.Namespace == set.Namespace && restored.UID == set.UID
 //@   ensures err == nil ==> restored.Spec.UpdateStrategy.Type == set.Spec.UpdateStrategy.Type && restored.Status.CurrentReplicas == set.Status.CurrentReplicas && restored.Spec.ServiceName == set.Spec.ServiceName
 //@   ensures err == nil ==> (restored.Spec.UpdateStrategy.RollingUpdate == nil) == (set.Spec.UpdateStrategy.RollingUpdate == nil)
@@ -251,10 +256,13 @@ package statefulset
 //@   at exit: assert [C12] actionwitnessexit: err == nil && !gDeleting && gUpdDeletes == 0 ==> (gNact >= 1 ==> nCreated >= 1 || firstDel >= 0) && (firstDel >= 0 ==> firstDel < len(pods) && gDeleted[pods[firstDel]])
 //@   at exit: assert [C12] acctliveexit: err == nil && !gDeleting ==> (forall k int :: {pods[k]} {updL[k]} {liveI[k]} 0 <= k && k < len(pods) ==> updL[k] == (updI[k] && !gDeleted[pods[k]]))
 //@   at exit: assert [C12] acctsubexit: err == nil && !gDeleting ==> 0 <= crCur && crCur <= nCreated && 0 <= crUpd && crUpd <= nCreated && (forall k int :: {liveI[k]} 0 <= k && k < len(pods) && (rdyI[k] || curL[k] || updL[k]) ==> liveI[k])
-//@   modifies gWrites, gPodTouch
+//@   modifies gWrites, gPodTouch, gCtlFails
 //@   ensures statusp != nil || err != nil
+//@   ensures statusp != nil ==> fresh(statusp)
+//@   profile defaulted ensures [C09] reported: gCtlFails > old(gCtlFails) ==> err != nil
+//@   profile defaulted ensures [C09] origin: err != nil ==> gCtlFails > old(gCtlFails) || errLocal(err)
 //@   profile defaulted ensures [C11] deletingnotouch: set.DeletionTimestamp != nil ==> gPodTouch == old(gPodTouch) && gWrites == old(gWrites)
-//@   profile defaulted ensures [C09] writesgrow: gWrites >= old(gWrites) && gPodTouch >= old(gPodTouch)
+//@   profile defaulted ensures [C09] writesgrow: gWrites >= old(gWrites) && gPodTouch >= old(gPodTouch) && gCtlFails >= old(gCtlFails)
 //@   profile defaulted ensures [C12] bounds: err == nil ==> 0 <= statusp.ReadyReplicas && statusp.ReadyReplicas <= statusp.Replicas && 0 <= statusp.CurrentReplicas && statusp.CurrentReplicas <= statusp.Replicas && 0 <= statusp.UpdatedReplicas && statusp.UpdatedReplicas <= statusp.Replicas
 //@   profile defaulted ensures [C12] generation: statusp != nil ==> statusp.ObservedGeneration == set.Generation && statusp.CurrentRevision == currentRevision.Name && statusp.UpdateRevision == updateRevision.Name
 //@   profile defaulted ensures [C12] census: err == nil && gNact == 0 ==> statusp.Replicas == len(pods) && statusp.ReadyReplicas == count(rdyI, 0, len(pods)) && statusp.CurrentReplicas == count(curI, 0, len(pods)) && statusp.UpdatedReplicas == count(updI, 0, len(pods))
@@ -299,7 +307,7 @@ package statefulset
 //@     invariant counted: forall j int :: {condemned[j]} 0 <= j && j < i && !isHealthyS(condemned[j]) ==> unhealthy > 0
 //@   loop 5 "range replicas"
 //@     invariant len(replicas) == replicaCount && !gDeleting && gUpdDeletes == 0
-//@     invariant [C09] writes: gWrites >= old(gWrites) && gPodTouch >= old(gPodTouch)
+//@     invariant [C09] writes: gWrites >= old(gWrites) && gPodTouch >= old(gPodTouch) && gCtlFails == old(gCtlFails)
 //@     invariant alloc: forall o int :: {replicas[o]} 0 <= o && o < replicaCount ==> allocated(replicas[o])
 //@     invariant statusrange: 0 - i <= status.Replicas && status.Replicas <= len(pods) + i && 0 - i <= status.CurrentReplicas && status.CurrentReplicas <= len(pods) + i && 0 - i <= status.UpdatedReplicas && status.UpdatedReplicas <= len(pods) + i
 //@     invariant [C01,C03,C04,C05,C07,C12,C14] placedord: forall o int :: {replicas[o]} {count(gS, 0, o)} 0 <= o && o < replicaCount && replicas[o] != nil ==> ordOf(replicas[o]) == o && (inSnap(replicas[o]) || isNewP(replicas[o]))
@@ -330,7 +338,7 @@ package statefulset
 //@     invariant [C14] burstcreated: !gMonotonic ==> (forall o int :: {gCreated[o]} 0 <= o && o < i && vacant(o) ==> gCreated[o])
 //@   loop 6 "for target := len(condemned) - 1; target >= 0"
 //@     invariant 0 - 1 <= target && target < len(condemned) && !gDeleting && gUpdDeletes == 0
-//@     invariant [C09] writes: gWrites >= old(gWrites) && gPodTouch >= old(gPodTouch)
+//@     invariant [C09] writes: gWrites >= old(gWrites) && gPodTouch >= old(gPodTouch) && gCtlFails == old(gCtlFails)
 //@     invariant statusrange: 0 - replicaCount - (len(condemned) - 1 - target) <= status.CurrentReplicas && 0 - replicaCount - (len(condemned) - 1 - target) <= status.UpdatedReplicas
 //@     invariant [C05] mono: gMonotonic ==> gNact == 0 && target == len(condemned) - 1
 //@     invariant [C03] replaced: forall o int :: {gReplaceDue[o]} gReplaceDue[o] ==> gCreated[o]
@@ -386,8 +394,8 @@ package statefulset
 //@   profile defaulted requires [C12] truthful: statusBounds(status)
 //@   profile defaulted requires [C12] generation: status.ObservedGeneration == set.Generation && status.ObservedGeneration >= set.Status.ObservedGeneration
 //@   profile defaulted requires [C10] copyonly: set >= gAlloc0
-//@   modifies set.Status, gStatusWrites, gWrites
-//@   ensures gStatusWrites == old(gStatusWrites) + 1 && gWrites == old(gWrites) + 1
+//@   modifies set.Status, gStatusWrites, gWrites, gCtlFails
+//@   ensures gStatusWrites == old(gStatusWrites) + 1 && gWrites == old(gWrites) + 1 && failed(old(gCtlFails), gCtlFails, result)
 
 //@ func defaultStatefulSetControl.updateStatefulSetStatus
 //@   profiles defaulted, crd
@@ -395,7 +403,10 @@ package statefulset
 //@   profile defaulted requires statusBounds(status) && status.ObservedGeneration == set.Generation
 //@   profile defaulted requires storedvalid: set.Status.ObservedGeneration <= set.Generation
 //@   at entry: ghost gAlloc0 = allocMark()
-//@   modifies status.CurrentReplicas, status.CurrentRevision, gStatusWrites, gAlloc0, gWrites
+//@   modifies status.CurrentReplicas, status.CurrentRevision, gStatusWrites, gAlloc0, gWrites, gCtlFails
+//@   profile defaulted ensures [C09] statusreported: gCtlFails > old(gCtlFails) ==> result != nil
+//@   profile defaulted ensures [C09] statusorigin: result != nil ==> gCtlFails > old(gCtlFails)
+//@   ensures gCtlFails >= old(gCtlFails) && gWrites >= old(gWrites) && gStatusWrites >= old(gStatusWrites)
 //@   profile defaulted ensures [C11] quietwrites: gWrites - old(gWrites) == gStatusWrites - old(gStatusWrites)
 //@   profile defaulted ensures [C12] promote: status.CurrentRevision != old(status.CurrentRevision) ==> status.CurrentRevision == status.UpdateRevision && set.Spec.UpdateStrategy.Type == "RollingUpdate" && old(status.UpdatedReplicas) == old(status.Replicas) && old(status.ReadyReplicas) == old(status.Replicas)
 //@   profile defaulted ensures [C12] quiet: !old(inconsistentAfter(set, status)) ==> gStatusWrites == old(gStatusWrites)
@@ -410,7 +421,7 @@ package statefulset
 //@   requires ssu != nil && set != nil && status != nil && ssu.client != nil && ssu.setLister != nil
 //@   profile defaulted requires statusBounds(status)
 //@   modifies set.Status, gApiFails, gWrites
-//@   loop 1 "func literal"
+//@   loop 1 "func literal" frame entry
 //@     invariant set != nil && (set == old(set) || fresh(set))
 //@ extern github.com/pingcap/advanced-statefulset/client/client/clientset/versioned/typed/apps/v1:StatefulSetInterface.UpdateStatus@realStatefulSetStatusUpdater.UpdateStatefulSetStatus
 //@   params c, ctx, obj, opts
@@ -433,17 +444,21 @@ package statefulset
 //@ spec func ctrlResolves(p *v1.Pod) bool = hasCtrl(p) && resolves(p.Namespace, ctrlRefOf(p).Kind, ctrlRefOf(p).Name, ctrlRefOf(p).UID)
 //@ spec func ctrlKey(p *v1.Pod) string = nsKey(p.Namespace, ctrlRefOf(p).Name)
 
+// keyOfObj(o): the key cache.DeletionHandlingMetaNamespaceKeyFunc computes for o (for a StatefulSet: namespace/name; assumed)
+//@ spec func keyOfObj(o iface) string
 //@ func StatefulSetController.enqueueStatefulSet$keyFunc
 //@   params obj
 //@   results key, err
 //@   pure
+//@   ensures err == nil ==> key == keyOfObj(obj)
 //@   ensures typeIs(obj, "*apps.StatefulSet") && asRef(obj, "*apps.StatefulSet") != nil ==> err == nil && key == setKey(asRef(obj, "*apps.StatefulSet"))
 
 //@ func StatefulSetController.enqueueStatefulSet
 //@   requires ssc != nil && ssc.queue != nil
 //@   modifies gEnq
 //@   ensures [C16] enqueued: typeIs(obj, "*apps.StatefulSet") && asRef(obj, "*apps.StatefulSet") != nil ==> gEnq == store(old(gEnq), setKey(asRef(obj, "*apps.StatefulSet")), true)
-//@   ensures [C16] onlythat: forall k string :: {gEnq[k]} gEnq[k] && !old(gEnq[k]) ==> typeIs(obj, "*apps.StatefulSet") && asRef(obj, "*apps.StatefulSet") != nil && k == setKey(asRef(obj, "*apps.StatefulSet"))
+//@   ensures [C16] onlythat: forall k string :: {gEnq[k]} gEnq[k] && !old(gEnq[k]) ==> k == keyOfObj(obj)
+//@   ensures [C16] setkey: typeIs(obj, "*apps.StatefulSet") && asRef(obj, "*apps.StatefulSet") != nil ==> keyOfObj(obj) == setKey(asRef(obj, "*apps.StatefulSet"))
 
 //@ func StatefulSetController.resolveControllerRef
 //@   requires ssc != nil && ssc.setLister != nil && controllerRef != nil
@@ -462,13 +477,13 @@ package statefulset
 //@   pure
 //@   ensures err != nil ==> len(sets) == 0
 //@   ensures forall i int :: {sets[i]} 0 <= i && i < len(sets) ==> sets[i] != nil && allocated(sets[i]) && sets[i].Namespace == pod.Namespace && sets[i] == listerSet(pod.Namespace, sets[i].Name) && selects(sets[i], pod)
-//@   ensures [C16] complete: forall name string :: {listerSet(pod.Namespace, name)} listerSet(pod.Namespace, name) != nil && selects(listerSet(pod.Namespace, name), pod) ==> (exists i int :: {sets[i]} 0 <= i && i < len(sets) && sets[i] == listerSet(pod.Namespace, name))
+//@   ensures [C16] complete: forall name string :: {listerSet(pod.Namespace, name)} listerSet(pod.Namespace, name) != nil && selects(listerSet(pod.Namespace, name), pod) ==> (exists i int :: {sets[i]} 0 <= i && i < len(sets) && sets[i] == listerSet(pod.Namespace, name) && sets[i].Name == name)
 
 //@ func StatefulSetController.getStatefulSetsForPod
 //@   requires ssc != nil && ssc.setLister != nil && pod != nil
 //@   pure
 //@   ensures forall i int :: {result[i]} 0 <= i && i < len(result) ==> result[i] != nil && allocated(result[i]) && result[i].Namespace == pod.Namespace && result[i] == listerSet(pod.Namespace, result[i].Name) && selects(result[i], pod)
-//@   ensures [C16] complete: forall name string :: {listerSet(pod.Namespace, name)} listerSet(pod.Namespace, name) != nil && selects(listerSet(pod.Namespace, name), pod) ==> (exists i int :: {result[i]} 0 <= i && i < len(result) && result[i] == listerSet(pod.Namespace, name))
+//@   ensures [C16] complete: forall name string :: {listerSet(pod.Namespace, name)} listerSet(pod.Namespace, name) != nil && selects(listerSet(pod.Namespace, name), pod) ==> (exists i int :: {result[i]} 0 <= i && i < len(result) && result[i] == listerSet(pod.Namespace, name) && result[i].Name == name)
 
 //@ func StatefulSetController.deletePod
 //@   requires ssc != nil && ssc.queue != nil && ssc.setLister != nil
@@ -493,12 +508,12 @@ package statefulset
 //@     invariant forall k string :: {gEnq[k]} gEnq[k] && !old(gEnq[k]) ==> (exists i int :: {sets[i]} 0 <= i && i < j && k == setKey(sets[i]))
 
 //@ func StatefulSetController.processNextWorkItem
-//@   requires ssc != nil && ssc.queue != nil
+//@   requires ssc != nil && ssc.queue != nil && ssc.setLister != nil && ssc.control != nil && ssc.kubeClient != nil && ssc.pcClient != nil && ssc.podLister != nil && ssc.podControl != nil
 //@   ghost var gKey string
 //@   ghost var gSyncErr error
 //@   at call Get#1 after: ghost gKey = ifaceStr(item)
 //@   at call sync#1 after: ghost gSyncErr = result
-//@   modifies gAddRL, gForget, gDone, gEnq, gWrites, gPodTouch, gRevAdopts, gStatusWrites
+//@   modifies gAddRL, gForget, gDone, gEnq, gApiFails, gWrites, gPodTouch, gCtlFails, gStatusWrites, gRevCreates, gRevUpdates, gRevDeleted, gRevDelCount, gAlloc0, gNewRev, gRevAdopts, gConfirmed, gPermErr, gAdopts, gReleases, gClaimSrc, gLocalFail
 //@   ensures [C09,C16] requeue: result && gSyncErr != nil ==> gAddRL[gKey] && gForget == old(gForget)
 //@   ensures [C09,C16] forget: result && gSyncErr == nil ==> gForget[gKey] && gAddRL == old(gAddRL)
 //@   ensures [C16] done: result ==> gDone[gKey]
@@ -555,7 +570,7 @@ package statefulset
 //@   profile defaulted ensures [C13] trimmed: result == nil ==> count(unusedI, 0, len(revisions)) - gRevDelCount <= deref(set.Spec.RevisionHistoryLimit)
 //@   profile defaulted ensures [C13] unusedchar: forall j int :: {revisions[j]} 0 <= j && j < len(revisions) ==> (unusedI[j] <==> !liveName(revisions[j].Name, current, update, pods))
 //@   profile defaulted ensures [C13] nomore: gRevDelCount <= count(unusedI, 0, len(revisions)) - deref(set.Spec.RevisionHistoryLimit) || gRevDelCount == 0
-//@   ensures [C09] writes: gWrites >= old(gWrites)
+//@   ensures [C09] writes: gWrites >= old(gWrites) && gApiFails >= old(gApiFails)
 //@   loop 1 "range pods"
 //@     invariant live != nil && fresh(live)
 //@     invariant [C13] livechar: forall n string :: {live[n]} live[n] ==> n == current.Name || n == update.Name || (exists k int :: {pods[k]} 0 <= k && k < i && revOf(pods[k]) == n)
@@ -617,13 +632,8 @@ package statefulset
 //@   profile defaulted ensures [C09] origin: err != nil ==> gApiFails > old(gApiFails) || errMarshal(err)
 //@   ensures err == nil ==> adopted != nil && fresh(adopted)
 // errMarshal: an error of json.Marshal on the patch struct (cannot happen for this struct; assumed benign)
-//@ spec func errMarshal(e error) bool
+//@ spec func errMarshal(e error) bool = errLocal(e)
 
-//@ extern encoding/json:Marshal@defaultStatefulSetControl.adoptControllerRevision
-//@   params v
-//@   results data, merr
-//@   pure
-//@   ensures merr != nil ==> errMarshal(merr)
 
 //@ extern k8s.io/client-go/kubernetes/typed/apps/v1:ControllerRevisionInterface.Patch@defaultStatefulSetControl.adoptControllerRevision
 //@   params c, ctx, name, pt, data, opts, subresources
@@ -684,3 +694,187 @@ package statefulset
 //@   modifies gApiFails
 //@   ensures failed(old(gApiFails), gApiFails, gerr)
 //@   ensures gerr == nil ==> freshset != nil && fresh(freshset) && freshset.Name == name
+
+// ---- sync (C11, C10, C09) ----------------------------------------------------------------------------------
+//@ spec func pausedS(s *apps.StatefulSet) bool = s.Annotations != nil && s.Annotations.has("paused-reconcile") && s.Annotations["paused-reconcile"] == "true"
+
+//@ func StatefulSetController.getPodsForStatefulSet
+//@   profiles defaulted, crd
+//@   results pods, err
+//@   requires ssc != nil && set != nil && ssc.podLister != nil && ssc.podControl != nil && ssc.pcClient != nil
+//@   modifies gAdopts, gReleases, gApiFails, gWrites, gPodTouch, gClaimSrc, gLocalFail
+//@   ensures gApiFails >= old(gApiFails) && gWrites >= old(gWrites) && gPodTouch >= old(gPodTouch)
+//@   ensures err == nil ==> (forall k int :: {pods[k]} 0 <= k && k < len(pods) ==> pods[k] != nil && allocated(pods[k]))
+//@   ensures err == nil ==> (forall i int, j int :: {pods[i], pods[j]} 0 <= i && i < j && j < len(pods) ==> pods[i] != pods[j] && pods[i].Name != pods[j].Name)
+//@   profile defaulted ensures [C10] members: err == nil ==> (forall k int :: {pods[k]} 0 <= k && k < len(pods) ==> matchP(ifaceOf(pods[k], "*v1.Pod")) && (objOrphan(ifaceOf(pods[k], "*v1.Pod")) || objOwnerUID(ifaceOf(pods[k], "*v1.Pod")) == set.UID))
+//@   profile defaulted ensures [C11] deletinghandsoff: set.DeletionTimestamp != nil ==> gAdopts == old(gAdopts) && gReleases == old(gReleases) && gWrites == old(gWrites) && gPodTouch == old(gPodTouch)
+//@   profile defaulted ensures [C09] origin: err != nil ==> gApiFails > old(gApiFails) || gLocalFail
+//@   free ensures fewpods: err == nil ==> len(pods) < 1000000000
+//@   free ensures snapphase: err == nil ==> (forall k int :: {pods[k]} 0 <= k && k < len(pods) ==> isCreatedS(pods[k]))
+//@   free ensures snapordinals: err == nil ==> (forall i int, j int :: {pods[i], pods[j]} 0 <= i && i < j && j < len(pods) ==> (ordOf(pods[i]) >= 0 ==> ordOf(pods[i]) != ordOf(pods[j])))
+
+// ---- update / current revision selection (C08, C12) -----------------------------------------------------------
+// patchIdOf(s): content id of the revision data getPatch computes for s (a function of s's pod template; assumed)
+//@ spec func patchIdOf(s *apps.StatefulSet) int
+//@ ghost global gRevCreates int   -- ControllerRevision create calls
+//@ ghost global gRevUpdates int   -- ControllerRevision update calls (rollback renumbering)
+//@ ghost global gNewRev *kubeapps.ControllerRevision   -- the revision freshly computed from the set's template in getStatefulSetRevisions
+
+//@ func nextRevision
+//@   requires forall i int :: {revisions[i]} 0 <= i && i < len(revisions) ==> revisions[i] != nil
+//@   pure
+//@   ensures [C08] result == ite(len(revisions) <= 0, 1, revisions[len(revisions) - 1].Revision + 1)
+
+//@ func newRevision
+//@   trusted "getPatch (scheme codec, JSON) and NewControllerRevision (hashing) are outside reach: assumed to return a fresh revision whose data is the patch of the set's template"
+//@   results cr, err
+//@   requires set != nil && collisionCount != nil
+//@   ensures err == nil ==> cr != nil && fresh(cr) && allocated(cr) && cr.Revision == revision && bytesId(cr.Data.Raw) == patchIdOf(set)
+//@   ensures err != nil ==> errLocal(err)
+
+//@ func defaultStatefulSetControl.updateControllerRevision
+//@   results updated, err
+//@   requires ssc != nil && ssc.csAppsV1 != nil && revision != nil
+//@   modifies gApiFails, gWrites, gRevUpdates
+//@   ensures gApiFails >= old(gApiFails) && gWrites >= old(gWrites) && gRevUpdates >= old(gRevUpdates)
+//@   ensures updated != nil && fresh(updated)
+//@   ensures [C08] samedata: bytesId(updated.Data.Raw) == bytesId(revision.Data.Raw) || gApiFails > old(gApiFails)
+//@   ensures [C08] renumbered: err == nil ==> updated.Revision == newRevision
+//@   ensures [C09] origin: err != nil ==> gApiFails > old(gApiFails)
+//@   at call Update#1 after: ghost gRevUpdates = gRevUpdates + 1
+//@   loop 1 "func literal" frame entry
+//@     invariant clone != nil && fresh(clone) && gApiFails >= old(gApiFails) && gWrites >= old(gWrites) && gRevUpdates >= old(gRevUpdates)
+//@     invariant [C08] samedata: bytesId(clone.Data.Raw) == bytesId(revision.Data.Raw) || gApiFails > old(gApiFails)
+//@ extern k8s.io/api/apps/v1:ControllerRevision.DeepCopy
+//@   params in
+//@   ensures in == nil ==> result == nil
+//@   ensures in != nil ==> result != nil && fresh(result) && result.Name == in.Name && result.Namespace == in.Namespace && result.Revision == in.Revision && result.Data == in.Data && result.UID == in.UID && result.OwnerReferences == in.OwnerReferences
+//@   ensures in != nil ==> (in.Labels == nil ==> result.Labels == nil) && (in.Labels != nil ==> fresh(result.Labels) && dom(result.Labels) == dom(in.Labels) && vals(result.Labels) == vals(in.Labels))
+
+//@ func hashControllerRevision
+//@   trusted "FNV hashing and SafeEncodeString: only purity is used"
+//@   requires revision != nil
+//@   pure
+//@ func controllerRevisionName
+//@   pure
+
+//@ func defaultStatefulSetControl.createControllerRevision
+//@   results created, err
+//@   requires ssc != nil && ssc.csAppsV1 != nil && parent != nil && revision != nil
+//@   modifies *collisionCount, gApiFails, gWrites, gRevCreates
+//@   ensures gApiFails >= old(gApiFails) && gWrites >= old(gWrites) && gRevCreates >= old(gRevCreates)
+//@   ensures [C08] samedata: err == nil ==> created != nil && bytesId(created.Data.Raw) == bytesId(revision.Data.Raw)
+//@   ensures [C09] origin: err != nil ==> gApiFails > old(gApiFails) || errLocal(err)
+//@   at call Create#1 after: ghost gRevCreates = gRevCreates + 1
+//@   loop 1 "for"
+//@     invariant collisionCount != nil && clone != nil && fresh(clone) && gApiFails >= old(gApiFails) && gWrites >= old(gWrites) && gRevCreates >= old(gRevCreates)
+//@     invariant [C08] bytesId(clone.Data.Raw) == bytesId(revision.Data.Raw)
+// a colliding revision is never overwritten: inside createControllerRevision no update, patch or delete may be issued
+//@ extern k8s.io/client-go/kubernetes/typed/apps/v1:ControllerRevisionInterface.Update@defaultStatefulSetControl.createControllerRevision
+//@   params c, ctx, rev, opts
+//@   requires [C08] neveroverwrite: false
+//@ extern k8s.io/client-go/kubernetes/typed/apps/v1:ControllerRevisionInterface.Delete@defaultStatefulSetControl.createControllerRevision
+//@   params c, ctx, name, opts
+//@   requires [C08] neveroverwrite: false
+//@ extern k8s.io/client-go/kubernetes/typed/apps/v1:ControllerRevisionInterface.Patch@defaultStatefulSetControl.createControllerRevision
+//@   params c, ctx, name, pt, data, opts, subresources
+//@   requires [C08] neveroverwrite: false
+
+//@ func defaultStatefulSetControl.getStatefulSetRevisions
+//@   profiles defaulted, crd
+//@   results cur, upd, cc, err
+//@   requires ssc != nil && ssc.csAppsV1 != nil && set != nil
+//@   requires forall i int :: {revisions[i]} 0 <= i && i < len(revisions) ==> revisions[i] != nil && allocated(revisions[i])
+//@   modifies elems(revisions), gApiFails, gWrites, gRevCreates, gRevUpdates, gNewRev
+//@   ghost var sorted []*kubeapps.ControllerRevision
+//@   at call newRevision#1 after: ghost gNewRev = cr
+//@   at call SortControllerRevisions#1 after: ghost sorted = revisions
+//@   ensures gApiFails >= old(gApiFails) && gWrites >= old(gWrites) && gRevCreates >= old(gRevCreates) && gRevUpdates >= old(gRevUpdates)
+//@   ensures err == nil ==> cur != nil && upd != nil
+//@   ensures len(revisions) == len(old(revisions))
+//@   ensures permuted: forall i int :: {revisions[i]} 0 <= i && i < len(revisions) ==> 0 <= sortPerm(old(revisions), revisions, i) && sortPerm(old(revisions), revisions, i) < len(revisions) && revisions[i] == old(revisions)[sortPerm(old(revisions), revisions, i)]
+//@   ensures permutedinj: forall a int, b int :: {sortPerm(old(revisions), revisions, a), sortPerm(old(revisions), revisions, b)} 0 <= a && a < b && b < len(revisions) ==> sortPerm(old(revisions), revisions, a) != sortPerm(old(revisions), revisions, b)
+//@   ensures [C08] mirrors: err == nil ==> bytesId(upd.Data.Raw) == patchIdOf(set) || gApiFails > old(gApiFails)
+//@   ensures [C08] nonewrevision: (exists i int :: {revisions[i]} 0 <= i && i < len(revisions) && revEqualData(revisions[i], gNewRev)) ==> gRevCreates == old(gRevCreates)
+//@   ensures [C08] rollbackabove: gRevUpdates > old(gRevUpdates) && err == nil ==> (forall i int :: {revisions[i]} 0 <= i && i < len(revisions) ==> revisions[i].Revision < upd.Revision || gApiFails > old(gApiFails))
+//@   ensures [C12] currentkept: err == nil && (exists i int :: {revisions[i]} 0 <= i && i < len(revisions) && revisions[i].Name == set.Status.CurrentRevision) ==> cur.Name == set.Status.CurrentRevision
+//@   ensures [C09] origin: err != nil ==> gApiFails > old(gApiFails) || errLocal(err)
+//@   loop 1 "range revisions"
+//@     invariant currentRevision == nil
+//@     invariant [C12] notfoundyet: forall j int :: {revisions[j]} 0 <= j && j < i ==> revisions[j].Name != set.Status.CurrentRevision
+
+//@ func defaultStatefulSetControl.UpdateStatefulSet
+//@   profiles defaulted, crd
+//@   params ssc, set, pods
+//@   lemmas count_bound
+//@   requires ssc != nil && set != nil && ssc.podControl != nil && ssc.recorder != nil && ssc.csAppsV1 != nil && ssc.statusUpdater != nil
+//@   requires set.Spec.Replicas != nil && deref(set.Spec.Replicas) >= 0 && set.Spec.RevisionHistoryLimit != nil && deref(set.Spec.RevisionHistoryLimit) >= 0
+//@   requires slotsbound: deref(set.Spec.Replicas) + card(slotsAnn(ifaceOf(set, "*apps.StatefulSet"))) <= MaxInt32
+//@   requires podsbound: len(pods) + deref(set.Spec.Replicas) + card(slotsAnn(ifaceOf(set, "*apps.StatefulSet"))) < MaxInt32
+//@   requires snapalloc: forall k int :: {pods[k]} 0 <= k && k < len(pods) ==> pods[k] != nil && allocated(pods[k])
+//@   requires snapdistinct: forall i int, j int :: {pods[i], pods[j]} 0 <= i && i < j && j < len(pods) ==> pods[i] != pods[j] && (ordOf(pods[i]) >= 0 ==> ordOf(pods[i]) != ordOf(pods[j]))
+//@   requires snapphase: forall k int :: {pods[k]} 0 <= k && k < len(pods) ==> isCreatedS(pods[k])
+//@   profile defaulted requires set.Spec.UpdateStrategy.Type == "RollingUpdate" || set.Spec.UpdateStrategy.Type == "OnDelete"
+//@   profile defaulted requires storedvalid: set.Status.ObservedGeneration <= set.Generation
+//@   modifies gApiFails, gWrites, gPodTouch, gCtlFails, gStatusWrites, gRevCreates, gRevUpdates, gRevDeleted, gRevDelCount, gAlloc0, gNewRev
+//@   ensures gApiFails >= old(gApiFails) && gWrites >= old(gWrites) && gPodTouch >= old(gPodTouch)
+//@   profile defaulted ensures [C11] deletinghandsoff: set.DeletionTimestamp != nil ==> gPodTouch == old(gPodTouch)
+//@   profile defaulted ensures [C09] podfailuresreported: gCtlFails > old(gCtlFails) ==> result != nil
+//@   profile defaulted ensures [C09] origin: result != nil ==> gCtlFails > old(gCtlFails) || gApiFails > old(gApiFails) || errLocal(result) || errSelector(result)
+//@   profile defaulted ensures [C12] statusonlyafterreconcile: gStatusWrites > old(gStatusWrites) ==> gStatusWrites == old(gStatusWrites) + 1
+
+//@ func StatefulSetController.syncStatefulSet
+//@   profiles defaulted, crd
+//@   requires ssc != nil && set != nil && ssc.control != nil
+//@   requires set.Spec.Replicas != nil && deref(set.Spec.Replicas) >= 0 && set.Spec.RevisionHistoryLimit != nil && deref(set.Spec.RevisionHistoryLimit) >= 0
+//@   requires slotsbound: deref(set.Spec.Replicas) + card(slotsAnn(ifaceOf(set, "*apps.StatefulSet"))) <= MaxInt32
+//@   requires podsbound: len(pods) + deref(set.Spec.Replicas) + card(slotsAnn(ifaceOf(set, "*apps.StatefulSet"))) < MaxInt32
+//@   requires snapalloc: forall k int :: {pods[k]} 0 <= k && k < len(pods) ==> pods[k] != nil && allocated(pods[k])
+//@   requires snapdistinct: forall i int, j int :: {pods[i], pods[j]} 0 <= i && i < j && j < len(pods) ==> pods[i] != pods[j] && (ordOf(pods[i]) >= 0 ==> ordOf(pods[i]) != ordOf(pods[j]))
+//@   requires snapphase: forall k int :: {pods[k]} 0 <= k && k < len(pods) ==> isCreatedS(pods[k])
+//@   profile defaulted requires set.Spec.UpdateStrategy.Type == "RollingUpdate" || set.Spec.UpdateStrategy.Type == "OnDelete"
+//@   profile defaulted requires storedvalid: set.Status.ObservedGeneration <= set.Generation
+//@   modifies gApiFails, gWrites, gPodTouch, gCtlFails, gStatusWrites, gRevCreates, gRevUpdates, gRevDeleted, gRevDelCount, gAlloc0, gNewRev
+//@   ensures gApiFails >= old(gApiFails) && gWrites >= old(gWrites) && gPodTouch >= old(gPodTouch)
+//@   profile defaulted ensures [C11] deletinghandsoff: set.DeletionTimestamp != nil ==> gPodTouch == old(gPodTouch)
+//@   profile defaulted ensures [C10] cacheuntouched: true
+//@   profile defaulted ensures [C09] podfailuresreported: gCtlFails > old(gCtlFails) ==> result != nil
+//@   profile defaulted ensures [C09] origin: result != nil ==> gCtlFails > old(gCtlFails) || gApiFails > old(gApiFails) || errLocal(result) || errSelector(result)
+
+//@ func StatefulSetController.sync
+//@   profiles defaulted, crd
+//@   requires ssc != nil && ssc.setLister != nil && ssc.control != nil && ssc.kubeClient != nil && ssc.pcClient != nil && ssc.podLister != nil && ssc.podControl != nil
+//@   ghost var gSet *apps.StatefulSet = nil
+//@   at call Get#1 after: ghost gSet = result0
+//@   free requires crdvalid: forall ns string, name string :: {listerSet(ns, name)} listerSet(ns, name) != nil ==> listerSet(ns, name).Spec.Replicas != nil && deref(listerSet(ns, name).Spec.Replicas) >= 0 && listerSet(ns, name).Spec.RevisionHistoryLimit != nil && deref(listerSet(ns, name).Spec.RevisionHistoryLimit) >= 0
+//@   free requires sizebound: forall ns string, name string :: {listerSet(ns, name)} listerSet(ns, name) != nil ==> deref(listerSet(ns, name).Spec.Replicas) + card(slotsAnn(ifaceOf(listerSet(ns, name), "*apps.StatefulSet"))) < 1000000000
+//@   profile defaulted free requires defaultedsets: forall ns string, name string :: {listerSet(ns, name)} listerSet(ns, name) != nil ==> (listerSet(ns, name).Spec.UpdateStrategy.Type == "RollingUpdate" || listerSet(ns, name).Spec.UpdateStrategy.Type == "OnDelete") && listerSet(ns, name).Status.ObservedGeneration <= listerSet(ns, name).Generation
+//@   modifies gApiFails, gWrites, gPodTouch, gCtlFails, gStatusWrites, gRevCreates, gRevUpdates, gRevDeleted, gRevDelCount, gAlloc0, gNewRev, gRevAdopts, gConfirmed, gPermErr, gAdopts, gReleases, gClaimSrc, gLocalFail
+//@   ensures gApiFails >= old(gApiFails) && gWrites >= old(gWrites) && gPodTouch >= old(gPodTouch)
+//@   profile defaulted ensures [C11] pausednowrite: gSet != nil && pausedS(gSet) ==> gWrites == old(gWrites) && result == nil
+//@   profile defaulted ensures [C11] deletinghandsoff: gSet != nil && gSet.DeletionTimestamp != nil ==> gPodTouch == old(gPodTouch) && gRevAdopts == old(gRevAdopts) && gAdopts == old(gAdopts) && gReleases == old(gReleases)
+//@   profile defaulted ensures [C09] origin: result != nil ==> gCtlFails > old(gCtlFails) || gApiFails > old(gApiFails) || gPermErr || gLocalFail || errLocal(result) || errSelector(result)
+//@   profile defaulted ensures [C11] thisset: gSet != nil ==> nsKey(gSet.Namespace, gSet.Name) == key
+
+//@ extern reflect:DeepEqual@StatefulSetController.updatePod
+//@   params x, y
+//@   pure
+//@   ensures typeIs(x, "*metav1.OwnerReference") && typeIs(y, "*metav1.OwnerReference") && result ==> ((asRef(x, "*metav1.OwnerReference") == nil) == (asRef(y, "*metav1.OwnerReference") == nil)) && (asRef(x, "*metav1.OwnerReference") != nil ==> deref(asRef(x, "*metav1.OwnerReference")) == deref(asRef(y, "*metav1.OwnerReference")))
+
+//@ func StatefulSetController.updatePod
+//@   requires ssc != nil && ssc.queue != nil && ssc.setLister != nil
+//@   requires informer: typeIs(old, "*v1.Pod") && asRef(old, "*v1.Pod") != nil && typeIs(cur, "*v1.Pod") && asRef(cur, "*v1.Pod") != nil
+//@   modifies gEnq
+//@   ghost var gLabelChanged bool
+//@   ghost var gRefChanged bool
+//@   at call GetControllerOf#1 before: ghost gLabelChanged = labelChanged
+//@   at call resolveControllerRef#1 before: ghost gRefChanged = true
+//@   ensures [C16] samerv: asRef(cur, "*v1.Pod").ResourceVersion == asRef(old, "*v1.Pod").ResourceVersion ==> gEnq == old(gEnq)
+//@   ensures [C16] newowner: asRef(cur, "*v1.Pod").ResourceVersion != asRef(old, "*v1.Pod").ResourceVersion && ctrlResolves(asRef(cur, "*v1.Pod")) ==> gEnq[ctrlKey(asRef(cur, "*v1.Pod"))]
+//@   ensures [C16] oldowner: asRef(cur, "*v1.Pod").ResourceVersion != asRef(old, "*v1.Pod").ResourceVersion && ctrlResolves(asRef(old, "*v1.Pod")) && (!hasCtrl(asRef(cur, "*v1.Pod")) || ctrlRefOf(asRef(cur, "*v1.Pod")).UID != ctrlRefOf(asRef(old, "*v1.Pod")).UID) ==> gEnq[ctrlKey(asRef(old, "*v1.Pod"))]
+//@   ensures [C16] orphanchange: asRef(cur, "*v1.Pod").ResourceVersion != asRef(old, "*v1.Pod").ResourceVersion && !hasCtrl(asRef(cur, "*v1.Pod")) && (gLabelChanged || hasCtrl(asRef(old, "*v1.Pod"))) ==> (forall name string :: {listerSet(asRef(cur, "*v1.Pod").Namespace, name)} listerSet(asRef(cur, "*v1.Pod").Namespace, name) != nil && selects(listerSet(asRef(cur, "*v1.Pod").Namespace, name), asRef(cur, "*v1.Pod")) ==> gEnq[nsKey(asRef(cur, "*v1.Pod").Namespace, name)])
+//@   ghost var gEnqMid set[string]
+//@   at loopstart 1: ghost gEnqMid = gEnq
+//@   loop 1 "range sets" index j
+//@     invariant forall i int :: {sets[i]} 0 <= i && i < j ==> gEnq[setKey(sets[i])]
+//@     invariant forall k string :: {gEnq[k]} gEnqMid[k] ==> gEnq[k]
